@@ -1,0 +1,220 @@
+#pragma once
+
+// Verification hooks: reporting variant of the FIBER atomic, exists only when YACLIB_VERIF is defined.
+#ifdef YACLIB_VERIF
+
+#  include <yaclib/fault/detail/fiber/atomic.hpp>
+#  include <yaclib/fault/detail/verif.hpp>
+
+namespace yaclib::verif {
+
+// Brackets the plain accesses by which a fiber atomic is implemented
+struct Prim final {
+  Prim() noexcept {
+    if (gHooks.enter_prim != nullptr) {
+      gHooks.enter_prim();
+    }
+  }
+  ~Prim() noexcept {
+    if (gHooks.leave_prim != nullptr) {
+      gHooks.leave_prim();
+    }
+  }
+  Prim(const Prim&) = delete;
+  Prim& operator=(const Prim&) = delete;
+};
+
+// Forwards every operation to the real FIBER implementation, then reports it
+template <typename T>
+class Atomic : public detail::fiber::Atomic<T> {
+  using Base = detail::fiber::Atomic<T>;
+
+  static unsigned long long Bits(const T& value) noexcept {
+    unsigned long long bits = 0;
+    std::memcpy(&bits, &value, sizeof(T) < sizeof(bits) ? sizeof(T) : sizeof(bits));
+    return bits;
+  }
+
+  static constexpr int kSeqCst = static_cast<int>(std::memory_order_seq_cst);
+
+  template <typename Func>
+  auto Rmw(int order, Func&& func) noexcept {
+    T before;
+    T after;
+    auto r = [&] {
+      Prim prim;
+      before = Base::load(std::memory_order_relaxed);
+      auto result = func();
+      after = Base::load(std::memory_order_relaxed);
+      return result;
+    }();
+    Event(kRmw, this, order, Bits(before), Bits(after));
+    return r;
+  }
+
+  template <typename Func>
+  bool Cas(T& expected, T desired, int success, int failure, Func&& func) noexcept {
+    T before;
+    bool r;
+    {
+      Prim prim;
+      before = Base::load(std::memory_order_relaxed);
+      r = func();
+    }
+    Event(r ? kCasOk : kCasFail, this, r ? success : failure, Bits(before), r ? Bits(desired) : Bits(before));
+    (void)expected;
+    return r;
+  }
+
+ public:
+  using Base::Base;
+
+  T operator=(T desired) noexcept {
+    store(desired, std::memory_order_seq_cst);
+    return desired;
+  }
+
+  void store(T desired, std::memory_order order) noexcept {
+    T before;
+    {
+      Prim prim;
+      before = Base::load(std::memory_order_relaxed);
+      Base::store(desired, order);
+    }
+    Event(kStore, this, static_cast<int>(order), Bits(before), Bits(desired));
+  }
+
+  T load(std::memory_order order) const noexcept {
+    T value;
+    {
+      Prim prim;
+      value = Base::load(order);
+    }
+    Event(kLoad, this, static_cast<int>(order), Bits(value), Bits(value));
+    return value;
+  }
+
+  T exchange(T desired, std::memory_order order) noexcept {
+    return Rmw(static_cast<int>(order), [&] {
+      return Base::exchange(desired, order);
+    });
+  }
+
+  bool compare_exchange_weak(T& expected, T desired, std::memory_order success, std::memory_order failure) noexcept {
+    return Cas(expected, desired, static_cast<int>(success), static_cast<int>(failure), [&] {
+      return Base::compare_exchange_weak(expected, desired, success, failure);
+    });
+  }
+  bool compare_exchange_weak(T& expected, T desired, std::memory_order order) noexcept {
+    return Cas(expected, desired, static_cast<int>(order), FailureOrder(order), [&] {
+      return Base::compare_exchange_weak(expected, desired, order);
+    });
+  }
+  bool compare_exchange_strong(T& expected, T desired, std::memory_order success, std::memory_order failure) noexcept {
+    return Cas(expected, desired, static_cast<int>(success), static_cast<int>(failure), [&] {
+      return Base::compare_exchange_strong(expected, desired, success, failure);
+    });
+  }
+  bool compare_exchange_strong(T& expected, T desired, std::memory_order order) noexcept {
+    return Cas(expected, desired, static_cast<int>(order), FailureOrder(order), [&] {
+      return Base::compare_exchange_strong(expected, desired, order);
+    });
+  }
+
+  template <typename Arg>
+  T fetch_add(Arg arg, std::memory_order order) noexcept {
+    return Rmw(static_cast<int>(order), [&] {
+      return Base::fetch_add(arg, order);
+    });
+  }
+  template <typename Arg>
+  T fetch_sub(Arg arg, std::memory_order order) noexcept {
+    return Rmw(static_cast<int>(order), [&] {
+      return Base::fetch_sub(arg, order);
+    });
+  }
+  template <typename Arg>
+  T fetch_and(Arg arg, std::memory_order order) noexcept {
+    return Rmw(static_cast<int>(order), [&] {
+      return Base::fetch_and(arg, order);
+    });
+  }
+  template <typename Arg>
+  T fetch_or(Arg arg, std::memory_order order) noexcept {
+    return Rmw(static_cast<int>(order), [&] {
+      return Base::fetch_or(arg, order);
+    });
+  }
+  template <typename Arg>
+  T fetch_xor(Arg arg, std::memory_order order) noexcept {
+    return Rmw(static_cast<int>(order), [&] {
+      return Base::fetch_xor(arg, order);
+    });
+  }
+
+  template <typename Arg>
+  T operator+=(Arg arg) noexcept {
+    return Rmw(kSeqCst, [&] {
+      return Base::operator+=(arg);
+    });
+  }
+  template <typename Arg>
+  T operator-=(Arg arg) noexcept {
+    return Rmw(kSeqCst, [&] {
+      return Base::operator-=(arg);
+    });
+  }
+  template <typename Arg>
+  T operator&=(Arg arg) noexcept {
+    return Rmw(kSeqCst, [&] {
+      return Base::operator&=(arg);
+    });
+  }
+  template <typename Arg>
+  T operator|=(Arg arg) noexcept {
+    return Rmw(kSeqCst, [&] {
+      return Base::operator|=(arg);
+    });
+  }
+  template <typename Arg>
+  T operator^=(Arg arg) noexcept {
+    return Rmw(kSeqCst, [&] {
+      return Base::operator^=(arg);
+    });
+  }
+  T operator++() noexcept {
+    return Rmw(kSeqCst, [&] {
+      return Base::operator++();
+    });
+  }
+  T operator++(int) noexcept {
+    return Rmw(kSeqCst, [&] {
+      return Base::operator++(0);
+    });
+  }
+  T operator--() noexcept {
+    return Rmw(kSeqCst, [&] {
+      return Base::operator--();
+    });
+  }
+  T operator--(int) noexcept {
+    return Rmw(kSeqCst, [&] {
+      return Base::operator--(0);
+    });
+  }
+
+ private:
+  static int FailureOrder(std::memory_order order) noexcept {
+    if (order == std::memory_order_acq_rel) {
+      return static_cast<int>(std::memory_order_acquire);
+    }
+    if (order == std::memory_order_release) {
+      return static_cast<int>(std::memory_order_relaxed);
+    }
+    return static_cast<int>(order);
+  }
+};
+
+}  // namespace yaclib::verif
+
+#endif
